@@ -434,7 +434,9 @@ def minmax_model(f, ops):
         if o["kind"] in NUM:
             if _isnan(o):
                 return None
-            nums.append(parse_num(o["text"]))
+            v = parse_num(o["text"])
+            # the kind is the operand's, not what its printed text looks like (the float -0.0 prints as -0)
+            nums.append(float(v) if (v is not None and o["kind"] == "float") else v)
         elif o["kind"] in ("array", "map"):
             fl = _flatten_numbers(o)              # "recurse into arrays and maps"
             if fl is None:
@@ -1140,7 +1142,11 @@ def variadic_case(case):
 
             def same(k_, t_, o):
                 if k_ in NUM and o["kind"] in NUM:
-                    return same_value(t_, o["text"]) and (k_ == o["kind"] or A["kind"] != B["kind"])
+                    if k_ == o["kind"]:
+                        return same_value(t_, o["text"])
+                    # int and float mixed: the result may be the float conversion of the int argument
+                    x, y = parse_num(t_), parse_num(o["text"])
+                    return A["kind"] != B["kind"] and x is not None and y is not None and float(x) == float(y)
                 return k_ == o["kind"] and t_ == o["text"]
             ok = (same(k, txt, A) and same(k2, txt2, B)) or (same(k, txt, B) and same(k2, txt2, A))
             if not ok:
